@@ -1,6 +1,117 @@
 import TabulaModel.Util
-namespace Tabula.C05H
+import TabulaModel.Model.Filters
+/-!
+Line protocol of C05 (bytes are lower-case hex, `-` = empty; replies `ok <hex>` or `err`):
 
-def handle (_op : String) (_args : List String) : String := "bad-op"
+* `c05.hex <data>`                  — `hexDecode`
+* `c05.a85 <data>`                  — `a85Decode`
+* `c05.pred <P> <data>`             — `flatePost (some P)` (what FlateDecode does after inflating)
+* `c05.chain <filter> <parms> <data> <table>` — `streamDecode`
+* `c05.enc.hex <u|l> <data>`, `c05.enc.a85 <data>`, `c05.enc.png <colors> <columns> <tags> <data>`,
+  `c05.enc.tiff <colors> <columns> <data>` — the specification encoders (compared with the
+  harness's independent encoders)
+
+`P` = `pred/colors/columns/bpc`, each a decimal integer, `<int>r` (a Real with that integral
+value), `x` (a non-numeric object) or `~` (absent).
+`filter` = `~` (absent) | `o` (not a name/array) | `n:<hexname>` | `a:<e>,<e>,…` with `e` = `<hexname>` or `o`.
+`parms`  = `~` | `z` (null) | `o` | `d=<P>` | `a:<e>,…` with `e` = `z` | `o` | `d=<P>`.
+`table`  = `_` (empty) or `<in>><out>;…` — results of zlib inflate for the inputs the
+chain feeds to it; `<out>` = hex or `!` (inflate failed).
+-/
+namespace Tabula.C05H
+open Tabula Tabula.Filters
+
+def toStr (b : Bytes) : Str := b.map (·.toNat)
+def ofStr (s : Str) : Bytes := s.map UInt8.ofNat
+def hexS (s : Str) : String := hex (ofStr s)
+def unhexS (s : String) : Option Str := (unhex s).map toStr
+
+def reply : Option Str → String
+  | some s => "ok " ++ hexS s
+  | none => "err"
+
+/-- a parameter value: `~` absent, `x` present but not a number (`getIntParam` falls back to
+the default, as for an absent key), `12` an Int, `12r` a Real with integral value (`int(v)`) -/
+def optInt (s : String) : Option (Option Int) :=
+  if s == "~" || s == "x" then some none
+  else if s.endsWith "r" then (s.dropEnd 1).toString.toInt?.map some
+  else s.toInt?.map some
+
+def parseParams (s : String) : Option Params :=
+  match s.splitOn "/" with
+  | [a, b, c, d] => do
+    let pr ← optInt a; let colors ← optInt b; let columns ← optInt c; let bpc ← optInt d
+    pure { predictor := pr, colors := colors, columns := columns, bpc := bpc }
+  | _ => none
+
+def parsePObj (s : String) : Option PObj :=
+  if s == "~" then some .absent
+  else if s == "z" then some .null
+  else if s == "o" then some .other
+  else if s.startsWith "d=" then (parseParams (s.drop 2).toString).map .dict
+  else none
+
+def parseDParms (s : String) : Option DParms :=
+  if s.startsWith "a:" then
+    let body := (s.drop 2).toString
+    if body == "" then some (.array [])
+    else ((body.splitOn ",").mapM parsePObj).map .array
+  else (parsePObj s).map .one
+
+def parseFObj (s : String) : Option FObj :=
+  if s == "o" then some .other else (unhexS s).map .name
+
+def parseFilter (s : String) : Option Filter :=
+  if s == "~" then some .absent
+  else if s == "o" then some (.one .other)
+  else if s.startsWith "n:" then (unhexS (s.drop 2).toString).map (fun n => .one (.name n))
+  else if s.startsWith "a:" then
+    let body := (s.drop 2).toString
+    if body == "" then some (.array [])
+    else ((body.splitOn ",").mapM parseFObj).map .array
+  else none
+
+def parseEntry (s : String) : Option (Str × Option Str) :=
+  match s.splitOn ">" with
+  | [i, o] => do
+    let i ← unhexS i
+    let o ← if o == "!" then some none else (unhexS o).map some
+    pure (i, o)
+  | _ => none
+
+def parseTable (s : String) : Option (List (Str × Option Str)) :=
+  if s == "_" then some [] else (s.splitOn ";").mapM parseEntry
+
+def lookupTable (t : List (Str × Option Str)) (x : Str) : Option Str :=
+  match t.find? (fun e => e.1 == x) with
+  | some e => e.2
+  | none => none
+
+def handle (op : String) (args : List String) : String :=
+  match op, args with
+  | "c05.hex", [d] => match unhexS d with
+    | some d => reply (hexDecode d) | none => "bad-op"
+  | "c05.a85", [d] => match unhexS d with
+    | some d => reply (a85Decode d) | none => "bad-op"
+  | "c05.pred", [p, d] => match parseParams p, unhexS d with
+    | some p, some d => reply (flatePost (some p) d) | _, _ => "bad-op"
+  | "c05.chain", [f, p, d, t] =>
+    match parseFilter f, parseDParms p, unhexS d, parseTable t with
+    | some f, some p, some d, some t =>
+      reply (streamDecode { inflate := lookupTable t, ccitt := fun _ => none } f p d)
+    | _, _, _, _ => "bad-op"
+  | "c05.enc.hex", [u, d] => match unhexS d with
+    | some d => reply (some (hexEncode (u == "u") d)) | none => "bad-op"
+  | "c05.enc.a85", [d] => match unhexS d with
+    | some d => reply (some (a85Encode d)) | none => "bad-op"
+  | "c05.enc.png", [colors, columns, tags, d] =>
+    match colors.toNat?, columns.toNat?, unhexS tags, unhexS d with
+    | some colors, some columns, some tags, some d => reply (some (pngPredict colors columns tags d))
+    | _, _, _, _ => "bad-op"
+  | "c05.enc.tiff", [colors, columns, d] =>
+    match colors.toNat?, columns.toNat?, unhexS d with
+    | some colors, some columns, some d => reply (some (tiffPredict colors columns d))
+    | _, _, _ => "bad-op"
+  | _, _ => "bad-op"
 
 end Tabula.C05H
